@@ -644,6 +644,94 @@ func ruleReadNComplete(c *core.Ctx, rule string) {
 	ruleRetryLoop(c, rule, "ReadN", "Read")
 }
 
+// completeMatcher: "everything was transferred" — size == length, !(size < length), or
+// nothing to transfer (length <= 0).
+func completeMatcher(isSize, isLen func(ssa.Value) bool) core.EdgeMatcher {
+	return func(cm core.Cmp) (bool, bool) {
+		if isSize(cm.X) && isLen(cm.Y) {
+			switch cm.Op {
+			case token.EQL, token.GEQ:
+				return true, false
+			case token.NEQ, token.LSS:
+				return false, true
+			}
+		}
+		if isLen(cm.X) && isSize(cm.Y) {
+			switch cm.Op {
+			case token.EQL, token.LEQ:
+				return true, false
+			case token.NEQ, token.GTR:
+				return false, true
+			}
+		}
+		// nothing to transfer: length <= 0 (the loop would not have been entered)
+		x, y, op := cm.X, cm.Y, cm.Op
+		if isLen(y) {
+			x, y = y, x
+			switch op {
+			case token.LSS:
+				op = token.GTR
+			case token.LEQ:
+				op = token.GEQ
+			case token.GTR:
+				op = token.LSS
+			case token.GEQ:
+				op = token.LEQ
+			}
+		}
+		if k, isK := core.ConstInt(y); isLen(x) && isK {
+			switch op {
+			case token.LEQ:
+				return k <= 0, false
+			case token.LSS:
+				return k <= 1, false
+			case token.EQL:
+				return k == 0, false
+			case token.GTR:
+				return false, k <= 0
+			case token.GEQ:
+				return false, k <= 1
+			case token.NEQ:
+				return false, k == 0
+			}
+		}
+		return false, false
+	}
+}
+
+// shortMatcher: "the transfer is short" on the size updated with this iteration's count.
+func shortMatcher(isNewSize, isLen func(ssa.Value) bool) core.EdgeMatcher {
+	return func(cm core.Cmp) (bool, bool) {
+		if isNewSize(cm.X) && isLen(cm.Y) {
+			switch cm.Op {
+			case token.NEQ, token.LSS:
+				return true, false
+			case token.EQL, token.GEQ:
+				return false, true
+			}
+		}
+		if isLen(cm.X) && isNewSize(cm.Y) {
+			switch cm.Op {
+			case token.NEQ, token.GTR:
+				return true, false
+			case token.EQL, token.LEQ:
+				return false, true
+			}
+		}
+		return false, false
+	}
+}
+
+// isEOFValue: a load of io.EOF.
+func isEOFValue(v ssa.Value) bool {
+	u, ok := core.Canon(v).(*ssa.UnOp)
+	if !ok || u.Op != token.MUL {
+		return false
+	}
+	g, ok := u.X.(*ssa.Global)
+	return ok && g.Name() == "EOF"
+}
+
 // ruleRetryLoop checks ReadN (method "Read") or WriteN (method "Write").
 func ruleRetryLoop(c *core.Ctx, rule, fname, method string) {
 	fn := c.Func("type/basic", "", fname)
@@ -716,60 +804,70 @@ func ruleRetryLoop(c *core.Ctx, rule, fname, method string) {
 		return false
 	}
 	isLen := func(v ssa.Value) bool { return core.Canon(v) == length }
-	complete := func(cm core.Cmp) (bool, bool) {
-		if isSize(cm.X) && isLen(cm.Y) {
-			switch cm.Op {
-			case token.EQL, token.GEQ:
-				return true, false
-			case token.NEQ, token.LSS:
-				return false, true
+	complete := completeMatcher(isSize, isLen)
+	// the verdict of the loop handed to a private helper of the package: `return
+	// transferResult(verb, size, length, err)`.  Each return of the helper is then an exit of
+	// the loop; what guards it is looked for on the way to the call, or inside the helper
+	// with its parameters standing for the size just updated, the length and the error of
+	// this iteration.
+	type fwd struct {
+		call *ssa.Call
+		h    *ssa.Function
+	}
+	forwarded := map[*ssa.Return]fwd{}
+	for _, ret := range core.Returns(fn) {
+		if successReturn(ret) || len(ret.Results) == 0 {
+			continue
+		}
+		cr, _ := core.CallResult(core.Canon(core.RetVal(ret, len(ret.Results)-1)))
+		if cr == nil {
+			continue
+		}
+		if h := cr.Call.StaticCallee(); h != nil && isPrivateHelper(c, h) && len(h.Blocks) > 0 && h.Pkg == fn.Pkg && h.Signature.Results().Len() == 1 {
+			forwarded[ret] = fwd{cr, h}
+		}
+	}
+	// inHelper: is target (a return of the helper) behind want, the matchers being rebuilt on
+	// the helper's parameters
+	inHelper := func(f fwd, target ssa.Instruction, want string) bool {
+		var pSize, pLen, pErr ssa.Value
+		for i, a := range f.call.Call.Args {
+			if i >= len(f.h.Params) {
+				break
+			}
+			switch {
+			case acc != nil && core.Canon(a) == ssa.Value(acc):
+				pSize = f.h.Params[i]
+			case core.Canon(a) == length:
+				pLen = f.h.Params[i]
+			case errV != nil && core.Canon(a) == errV:
+				pErr = f.h.Params[i]
 			}
 		}
-		if isLen(cm.X) && isSize(cm.Y) {
-			switch cm.Op {
-			case token.EQL, token.LEQ:
-				return true, false
-			case token.NEQ, token.GTR:
-				return false, true
-			}
+		if pSize == nil || pLen == nil || pErr == nil {
+			return false
 		}
-		// nothing to transfer: length <= 0 (the loop would not have been entered)
-		x, y, op := cm.X, cm.Y, cm.Op
-		if isLen(y) {
-			x, y = y, x
-			switch op {
-			case token.LSS:
-				op = token.GTR
-			case token.LEQ:
-				op = token.GEQ
-			case token.GTR:
-				op = token.LSS
-			case token.GEQ:
-				op = token.LEQ
-			}
+		is := func(p ssa.Value) func(ssa.Value) bool {
+			return func(v ssa.Value) bool { return core.Canon(v) == p }
 		}
-		if k, isK := core.ConstInt(y); isLen(x) && isK {
-			switch op {
-			case token.LEQ:
-				return k <= 0, false
-			case token.LSS:
-				return k <= 1, false
-			case token.EQL:
-				return k == 0, false
-			case token.GTR:
-				return false, k <= 0
-			case token.GEQ:
-				return false, k <= 1
-			case token.NEQ:
-				return false, k == 0
-			}
+		switch want {
+		case "complete":
+			return core.Guarded(f.h, target, completeMatcher(is(pSize), is(pLen)))
+		default:
+			return core.Guarded(f.h, target, core.AnyOf(shortMatcher(is(pSize), is(pLen)), core.Ne(is(pErr), isEOFValue)))
 		}
-		return false, false
 	}
 	ok := true
 	for _, ret := range core.Returns(fn) {
 		if successReturn(ret) && !core.Guarded(fn, ret, complete) {
 			ok = false
+		}
+		if f, isF := forwarded[ret]; isF && !core.Guarded(fn, ret, complete) {
+			for _, hr := range core.Returns(f.h) {
+				if successReturn(hr) && !inHelper(f, hr, "complete") {
+					ok = false
+				}
+			}
 		}
 	}
 	c.Check(ok, rule, "type/basic."+fname+"/nil-only-when-complete", fn.Pos(), "nil is returned only across size == length (or !(size < length))",
@@ -777,43 +875,27 @@ func ruleRetryLoop(c *core.Ctx, rule, fname, method string) {
 	// error only if short or not EOF; "short" must be established on the size
 	// updated with this iteration's count (the loop condition tested the old size)
 	isNewSize := func(v ssa.Value) bool { return acc != nil && core.Canon(v) == ssa.Value(acc) }
-	short := func(cm core.Cmp) (bool, bool) {
-		if isNewSize(cm.X) && isLen(cm.Y) {
-			switch cm.Op {
-			case token.NEQ, token.LSS:
-				return true, false
-			case token.EQL, token.GEQ:
-				return false, true
-			}
-		}
-		if isLen(cm.X) && isNewSize(cm.Y) {
-			switch cm.Op {
-			case token.NEQ, token.GTR:
-				return true, false
-			case token.EQL, token.LEQ:
-				return false, true
-			}
-		}
-		return false, false
-	}
+	short := shortMatcher(isNewSize, isLen)
 	isErr := func(v ssa.Value) bool { return core.Canon(v) == errV }
-	isEOF := func(v ssa.Value) bool {
-		u, ok := core.Canon(v).(*ssa.UnOp)
-		if !ok || u.Op != token.MUL {
-			return false
-		}
-		g, ok := u.X.(*ssa.Global)
-		return ok && g.Name() == "EOF"
-	}
-	notEOF := core.Ne(isErr, isEOF)
+	notEOF := core.Ne(isErr, isEOFValue)
 	ok = true
 	for _, ret := range core.Returns(fn) {
 		if successReturn(ret) {
 			continue
 		}
-		if !core.Guarded(fn, ret, core.AnyOf(short, notEOF)) {
-			ok = false
+		if core.Guarded(fn, ret, core.AnyOf(short, notEOF)) {
+			continue
 		}
+		if f, isF := forwarded[ret]; isF {
+			// every failing return of the helper is an error exit of the loop
+			for _, hr := range core.Returns(f.h) {
+				if !successReturn(hr) && !inHelper(f, hr, "error") {
+					ok = false
+				}
+			}
+			continue
+		}
+		ok = false
 	}
 	c.Check(ok, rule, "type/basic."+fname+"/eof-with-data", fn.Pos(), "an error is returned only if the read is short or the stream error is not io.EOF",
 		fname+" reports an error although all bytes were transferred, when the last fragment comes together with io.EOF: a complete message at end of stream is rejected")
